@@ -502,6 +502,7 @@ def check_C01(tier, seed):
     envs = envs_for(rnd, tier, 12, 100, oneof_defaults=True)
     per_env = 40 if tier == 'quick' else 120
     in_dom = [0, 0, 0, 0]
+    wfd = {'messages': 0, 'normal_form_is_canonical': 0, 'implementation_returns_normal_form': 0}
     for env in envs:
         st.schemas += 1
         lines, msgs = stream_pack(rnd, env, st, per_env, canon=True)
@@ -532,6 +533,37 @@ def check_C01(tier, seed):
                                 'pack then unpack does not return the original message (implementation)\n--- schema\n%s--- original\n%s\n'
                                 '--- packed bytes\n%s\n--- unpacked\n%s\n' % (env.text(), l, ulines[i], o))
                 run.violation(rp, False)
+        # hand-built (well-formed, not canonical) messages: pack on C, unpack the bytes on C, compare with the
+        # normal form the model computes (Impl/WNorm.v); the hypothesis of C01_roundtrip_to_normal_form is evaluated
+        wlines, wmsgs = stream_pack(rnd, env, st, per_env // 2, canon=False)
+        wc_out, wm_out, wbad, wc_err, _t = corr(run, ctx, env, wlines, 'c01w')
+        if wbad or len(wc_out) != len(wlines):
+            if len(run.violations) < 3:
+                run.violation(report_disagreement(run, env.text(), wlines, wc_out, wm_out, wbad, wc_err,
+                                                  'Impl <-> C correspondence (pack of hand-built messages) disagrees'), False)
+            continue
+        nl = ['WNORM ' + l.split(' ', 1)[1] for l in wlines]
+        rcn, n_out, n_err = run_driver(ctx.model, env.text() + '\n'.join(nl) + '\n', 'c01n')
+        ul2 = ['UNPACK %s %s' % (l.split()[2], o.split()[3]) for l, o in zip(wlines, wc_out)]
+        rcu, u_out, u_err = run_driver(ctx.impl, env.text() + '\n'.join(ul2) + '\n', 'c01wu')
+        for k, l in enumerate(wlines):
+            wfd['messages'] += 1
+            t = n_out[k].split(' ', 2) if k < len(n_out) else ['WN', '0', '']
+            if t[1] != '1':
+                continue                      # outside the theorem's hypothesis: nothing claimed
+            wfd['normal_form_is_canonical'] += 1
+            want = t[2]
+            got = u_out[k] if k < len(u_out) else '<driver aborted>'
+            if got == want:
+                wfd['implementation_returns_normal_form'] += 1
+            elif len(run.violations) < 3:
+                rp = run.replay('oracle-%d.txt' % len(run.violations),
+                                'pack then unpack of a hand-built message does not return its normal form (implementation)\n%s\n--- schema\n%s--- message\n%s\n'
+                                '--- packed bytes\n%s\n--- unpacked by protobuf-c\n%s\n--- normal form (model)\n%s\n'
+                                % (first_diff(got, want), env.text(), l, ul2[k], got[:3000], want[:3000]))
+                run.violation(rp, False)
+
+    run.cov['hand_built_messages'] = wfd
     run.cov['domain'] = {'messages': in_dom[0], 'wf_msg': in_dom[1], 'canon_msg': in_dom[2], 'env_ok': in_dom[3],
                          'note': 'generated messages that satisfy the hypotheses of the C01 theorem, evaluated with the extracted predicates'}
     finish_stats(run, st, 'random schemas x random canonical messages (boundary scalars, NaN payloads, -0.0, empty and long strings/bytes, '
@@ -996,8 +1028,8 @@ def alloc_check(pid, tier, seed):
     gate, obl = gate_and_ties(run, ctx, pid, seed, tier, need_leaf=False)
     rnd = random.Random(seed * 1000003 + (7 if pid == 'C07' else 8))
     st = Stats()
-    envs = envs_for(rnd, tier, 10, 80, oneof_defaults=True)
-    per_env = 14 if tier == 'quick' else 40
+    envs = envs_for(rnd, tier, 10, 40, oneof_defaults=True)
+    per_env = 14 if tier == 'quick' else 24
     tally = {'traces': 0, 'accepted_by_monitor': 0, 'events': 0, 'refusal_points': 0}
     for env in envs:
         st.schemas += 1
@@ -1024,7 +1056,8 @@ def alloc_check(pid, tier, seed):
             lines = []
             for (d, h), o in zip(inputs, b_out):
                 nreq = sum(1 for t in o.split()[1:] if t[0] in 'ar')
-                ks = list(range(nreq)) if nreq <= 24 or tier != 'quick' else sorted(rnd.sample(range(nreq), 24))
+                cap_k = 24 if tier == 'quick' else 96
+                ks = list(range(nreq)) if nreq <= cap_k else sorted(rnd.sample(range(nreq), cap_k))
                 for k in ks:
                     lines.append('UNPACKT %d %s %d' % (d, h, k)); tally['refusal_points'] += 1
                 if nreq:
@@ -1060,7 +1093,7 @@ def alloc_check(pid, tier, seed):
         tally['buffer_histories'] = len(blines)
     run.cov['ledger'] = tally
     finish_stats(run, st, 'random schemas x inputs (valid re-encodings incl. split sub-messages = merge paths, corrupted, canonical): protobuf_c_message_unpack with a recording allocator, '
-                          + ('failure-free' if pid == 'C07' else 'with the k-th request refused for EVERY k below the request count of the failure-free run (quick: at most 24 per input), plus k+ and random subsets')
+                          + ('failure-free' if pid == 'C07' else 'with the k-th request refused for EVERY k below the request count of the failure-free run (at most 24 / 96 refusal points per input in the quick / thorough tier), plus k+ and random subsets')
                           + ', then free_unpacked; the allocator event trace of the real run is judged by the extracted, proved-sound monitor')
     return conclude(run, gate, obl)
 
